@@ -407,6 +407,22 @@ static void build_ops() {
     add_op(o);
   }
 
+  // C01 --narrow: dimension-changing mutators are part of the histories too (they rebuild or resize the
+  // saturation matrices); in C02 they are transformers followed by the follow-up builders
+  if (NARROW && MODE == "C01") {
+    for (int proj = 0; proj < 2; ++proj) {
+      Op o; o.name = std::string(proj ? "add_space_dimensions_and_project(1)" : "add_space_dimensions_and_embed(1)"); o.builder = true;
+      o.ok = [](const Ctx& x) { return x.dim < 3; };
+      o.apply = [proj](Polyhedron& p, const Polyhedron*) { if (proj) p.add_space_dimensions_and_project(1); else p.add_space_dimensions_and_embed(1); return std::string(); };
+      o.refv = [proj](const Cell& c, const Cell*, bool) { return proj ? ref::add_dims_project(c, 1) : ref::add_dims_embed(c, 1); };
+      add_op(o);
+    }
+    { Op o; o.name = "remove_higher_space_dimensions(dim-1)"; o.builder = true;
+      o.ok = [](const Ctx& x) { return x.dim >= 2; };
+      o.apply = [](Polyhedron& p, const Polyhedron*) { p.remove_higher_space_dimensions(p.space_dimension() - 1); return std::string(); };
+      o.refv = [](const Cell& c, const Cell*, bool) { std::vector<int> vs; vs.push_back(c.n - 1); return ref::remove_dims(c, vs); };
+      add_op(o); }
+  }
   // follow-up builders applied to transformer results (C02 --followups)
   {
     std::set<std::string> fn = { "add_constraint(" + CM[4].str() + ")", "add_constraint(" + CM[10].str() + ")",
@@ -421,6 +437,7 @@ static void build_ops() {
     keep.insert("add_constraints({" + CM[0].str() + "," + CM[4].str() + "})");
     keep.insert("add_generators({" + GM[0].str() + "," + GM[1].str() + "," + GM[2].str() + "})");
     keep.insert("add_generators({" + GM[11].str() + "," + GM[8].str() + "," + GM[16].str() + "})");
+    keep.insert("add_space_dimensions_and_embed(1)"); keep.insert("add_space_dimensions_and_project(1)"); keep.insert("remove_higher_space_dimensions(dim-1)");
     for (size_t i = 0; i < OPS.size(); ++i) if (OPS[i].builder && !OPS[i].observer && !keep.count(OPS[i].name)) OPS[i].builder = false;
   }
 
@@ -803,7 +820,7 @@ static void phase_a(int depth_max, int min_dim, int max_dim) {
         std::unordered_map<long long, int>::iterator it = refmemo.find(mk);
         if (it != refmemo.end()) ncls = it->second;
         else { ncls = CL.classify(op.refv(CL[ST[s].cls], 0, ST[s].nnc)); refmemo[mk] = ncls; }
-        add_state(c, ST[s].nnc, ST[s].dim, ncls, (int)s, (int)oi, d);
+        add_state(c, ST[s].nnc, (int)c->space_dimension(), ncls, (int)s, (int)oi, d);
       }
     }
     begin = end;
@@ -1291,7 +1308,7 @@ static void run_ops_on(int s, long long& sub, long long sub_start) {
         check_value(*p, want, site, inj);
         // one more incremental step on the result (before anything observed it): lazy state left behind by the
         // operation (stale saturation rows, flags) only shows in what the NEXT mutator builds on it
-        if (FOLLOW) for (int fi : FOLLOWUPS) {
+        if (FOLLOW && pre->space_dimension() <= 3) for (int fi : FOLLOWUPS) {     // the reference is too slow on 4-dimensional NNC hulls
           const Op& f = OPS[fi];
           Ctx fx; fx.nnc = st.nnc; fx.dim = (int)pre->space_dimension(); fx.cls = want; fx.ocls = -1; fx.odim = -1;
           if (!f.ok(fx)) continue;
@@ -1502,6 +1519,11 @@ int main(int argc, char** argv) {
                      J().raw("history", hist_json(s)).str("op", nm).str("receiver_value", cellstr(ST[s].cls)).str("signature", ST[s].sig).done(),
                      signame(sig), "normal return");
   };
+  if (const char* sn = getenv("VERIF_SUBNAME")) {
+    long long it = atoll(sn), sb = atoll(strchr(sn, ':') + 1), base = 0;
+    for (size_t gi = 0; gi < GROUPS[it].size(); ++gi) { long long cnt = substep_count(GROUPS[it][gi]); if (sb < base + cnt) { printf("%s on %s\n", substep_name(GROUPS[it][gi], sb - base).c_str(), hist_json(GROUPS[it][gi]).c_str()); break; } base += cnt; }
+    return 0;
+  }
   limit_memory(6ULL << 30);
   if (getenv("VERIF_PROFILE")) pool().at_worker_exit = []() { for (auto& kv : PROF) fprintf(stderr, "PROF %-40s %8.3f %8ld\n", kv.first.c_str(), kv.second.first, kv.second.second); };
   pool().run((long long)GROUPS.size(), ARGS.jobs, fn, cf, ARGS, 60);
